@@ -286,6 +286,7 @@ func (ex *Exec) contractCall(f *ssa.Function, c *Contract, args []Term, h *Heap,
 	for i := range pnames {
 		vars[pnames[i]] = SV{args[i], ptypes[i]}
 		vars[pnames[i]+"0"] = SV{args[i], ptypes[i]}
+		vars[fmt.Sprintf("arg%d", i)] = SV{args[i], ptypes[i]}
 	}
 	pre := h.clone()
 	cx := &Exec{q: q, P: ex.P, fn: f, vals: map[ssa.Value]Term{}, locs: map[ssa.Value]*Loc{}, params: args, entryHeap: pre, stack: ex.stack, depth: ex.depth, counters: ex.counters, root: ex.root, witness: map[string]SV{}, parentExec: ex}
@@ -325,6 +326,50 @@ func (ex *Exec) contractCall(f *ssa.Function, c *Contract, args []Term, h *Heap,
 			}
 		}
 	}
+	// "modifies callbacks": replace the marker by the effects of the function values passed at this call
+	var resolved []Effect
+	for _, e := range effs {
+		if e.key != "$callbacks" {
+			resolved = append(resolved, e)
+			continue
+		}
+		call, isCall := at.(*ssa.Call)
+		if !isCall {
+			resolved = append(resolved, Effect{all: true, dyn: true, pkg: pkgOf(ex.fn)})
+			continue
+		}
+		for _, a := range call.Call.Args {
+			if _, isSig := a.Type().Underlying().(*types.Signature); !isSig {
+				continue
+			}
+			var cf *ssa.Function
+			switch av := a.(type) {
+			case *ssa.MakeClosure:
+				cf = av.Fn.(*ssa.Function)
+			case *ssa.Function:
+				cf = av
+			}
+			if cf == nil {
+				resolved = append(resolved, Effect{all: true, dyn: true, pkg: pkgOf(ex.fn)})
+				continue
+			}
+			for _, ce := range ex.P.funcEffects(q.so, cf, map[*ssa.Function]bool{}) {
+				ce.base, ce.param = nil, -1
+				resolved = append(resolved, ce)
+			}
+			// writes to captured variables of the closure (cells shared with the caller)
+			for _, b := range cf.Blocks {
+				for _, ins := range b.Instrs {
+					if st, ok := ins.(*ssa.Store); ok {
+						if key, _, _, _, ok2 := ex.P.addrEffect(q.so, st.Addr); ok2 {
+							resolved = append(resolved, Effect{key: key, param: -1})
+						}
+					}
+				}
+			}
+		}
+	}
+	effs = resolved
 	if len(effs) > 0 || !c.Pure {
 		*h = *cx.applyEffects(pre, effs, nil, reach)
 	}
@@ -343,7 +388,11 @@ func (ex *Exec) contractCall(f *ssa.Function, c *Contract, args []Term, h *Heap,
 		}
 	}
 	if c.Fresh && len(rs) > 0 {
-		q.assume(implies(reach, and(le(q.heapGet(pre, allocKey), rs[0]), lt(rs[0], q.heapGet(h, allocKey)))))
+		r0 := rs[0]
+		if r0.Sort == sSlice {
+			r0 = slBase(r0)
+		}
+		q.assume(implies(reach, and(le(q.heapGet(pre, allocKey), r0), lt(r0, q.heapGet(h, allocKey)))))
 	}
 	if c.Opaque && len(rs) == 1 {
 		// an opaque function is a (deterministic) function of its arguments: same symbol as in specs
@@ -732,7 +781,15 @@ func (ex *Exec) runDefers(x *ssa.RunDefers, h *Heap, reach Term) {
 		// the deferred call runs only if its defer statement was executed on this path
 		g := and(reach, d.reach)
 		cc := d.call.Common()
+		if d.call.Block().Dominates(x.Block()) {
+			ex.callAt(deferValue{d.call}, cc, h, g)
+			continue
+		}
+		// conditional defer: the heap changes only on the paths that executed the defer statement
+		before := h.clone()
 		ex.callAt(deferValue{d.call}, cc, h, g)
+		after := h.clone()
+		*h = *ex.q.mergeHeaps([]Term{d.reach}, []*Heap{after, before})
 	}
 }
 
